@@ -250,8 +250,14 @@ def obj_of(e):
     return dotted(e.value) or ast.dump(e.value)
 
 def is_prec_rounding_store(e):
-    return (isinstance(e, ast.Subscript) and isinstance(e.value, ast.Attribute)
-            and e.value.attr == '_prec_rounding')
+    """a store into `X._prec_rounding[...]` that can change the PRECISION: every subscript except the constant index 1
+    (`_prec_rounding = [prec, rounding]`: element 1 is the rounding mode, which C11 does not speak about)"""
+    if not (isinstance(e, ast.Subscript) and isinstance(e.value, ast.Attribute) and e.value.attr == '_prec_rounding'):
+        return False
+    sl = e.slice
+    if isinstance(sl, ast.Constant) and sl.value == 1:
+        return False
+    return True
 
 class Translator:
     def __init__(self, fo):
